@@ -84,6 +84,7 @@ type Explorer struct {
 	overridesUsed map[string]int
 	autoUsed  map[string]int
 	panicsSeen map[string]int
+	forkSites map[string]int
 	stopped   bool
 
 	gmu        sync.Mutex
@@ -99,7 +100,7 @@ type Explorer struct {
 func NewExplorer(prog *ssa.Program, entry *ssa.Function, cfg *Config) *Explorer {
 	ex := &Explorer{prog: prog, entry: entry, cfg: cfg,
 		obs: map[string]*ObStat{}, knownSeen: map[string]*Cex{}, reach: map[string]int{}, reachSample: map[string][]CexValue{},
-		funcs: map[string]int{}, modelsUsed: map[string]int{}, overridesUsed: map[string]int{}, autoUsed: map[string]int{}, panicsSeen: map[string]int{},
+		funcs: map[string]int{}, modelsUsed: map[string]int{}, overridesUsed: map[string]int{}, autoUsed: map[string]int{}, panicsSeen: map[string]int{}, forkSites: map[string]int{},
 		globals: map[*ssa.Global]Ptr{}, inited: map[*ssa.Package]bool{}}
 	ex.cond = sync.NewCond(&ex.mu)
 	ex.initPath = &Path{ex: ex, isInit: true, lits: map[string]*Term{}, litVal: map[string]string{}, lenAx: map[int]bool{}, inj: map[string][]*Term{}, known: map[string]*Term{}, stores: map[string]*StoreData{}, fmtNames: map[string]string{}}
@@ -114,6 +115,12 @@ func (ex *Explorer) noteFunc(fn *ssa.Function) {
 func (ex *Explorer) noteModel(k string)    { ex.mu.Lock(); ex.modelsUsed[k]++; ex.mu.Unlock() }
 func (ex *Explorer) noteOverride(k string) { ex.mu.Lock(); ex.overridesUsed[k]++; ex.mu.Unlock() }
 func (ex *Explorer) noteAuto(k string)     { ex.mu.Lock(); ex.autoUsed[k]++; ex.mu.Unlock() }
+func (ex *Explorer) noteFork(pos string) {
+	ex.mu.Lock()
+	ex.forkSites[pos]++
+	ex.mu.Unlock()
+}
+
 func (ex *Explorer) noteUnknown(s string) {
 	ex.mu.Lock()
 	if len(ex.unknowns) < 50 {
@@ -212,7 +219,7 @@ func (ex *Explorer) Run() {
 				ex.mu.Unlock()
 				return
 			}
-			defer s.Close()
+			defer func() { s.Close() }()
 			for {
 				ex.mu.Lock()
 				for len(ex.queue) == 0 && ex.active > 0 && !ex.stopped {
@@ -233,6 +240,14 @@ func (ex *Explorer) Run() {
 					ex.unwinds = append(ex.unwinds, fmt.Sprintf("path bound %d exceeded", ex.cfg.MaxPaths))
 				}
 				ex.mu.Unlock()
+				if s.Dead {
+					s.Close()
+					s, err = NewSolver(ex.cfg.Solver, ex.cfg.TimeoutMs, nil)
+					if err != nil {
+						ex.recordEngineErr("cannot restart solver: " + err.Error())
+						return
+					}
+				}
 				ex.runPath(s, prefix)
 				ex.mu.Lock()
 				ex.active--
@@ -265,6 +280,12 @@ func (ex *Explorer) runPath(s *Solver, prefix []bool) {
 		s.Assert(a)
 	}
 	it := ex.newInterp(p)
+	p.curInst = func() string {
+		if it.top != nil && it.top.curInst != nil {
+			return ex.prog.Fset.Position(it.top.curInst.Pos()).String() + " " + it.top.fn.Name()
+		}
+		return "?"
+	}
 	defer func() {
 		if r := recover(); r != nil {
 			switch e := r.(type) {
